@@ -514,6 +514,67 @@ def has_nested_array_literal(prog):
     return any(walk(t["body"]) for t in prog["tasks"])
 
 
+def attr_var_clash_case(seed_str, which):
+    """well-formed: a struct whose attributes are named like the variables of one task but have other
+    types, defined DIRECTLY AFTER that task (which: 0 productionTask, 1 fcallee, else a random task);
+    the other definitions in random order"""
+    rng = random.Random(seed_str)
+    prog = faults.with_support(gen_check.WGen(rng).gen_program())
+    prod = next(t for t in prog["tasks"] if t["name"] == "productionTask")
+    prod["body"] += [("service", "Sq", [], [("q", faults.FQ)]), ("call",) + faults.GOOD_CALL]
+    names = [t["name"] for t in prog["tasks"]]
+    tname = "productionTask" if which == 0 else "fcallee" if which == 1 else rng.choice(names)
+    ti = names.index(tname)
+    vt = gen_check.var_types(prog).get(tname, {})
+    NUM, STR = ("plain", "number"), ("plain", "string")
+    attrs = [(v, STR if t == NUM else NUM) for v, t in sorted(vt.items())][:8] or [("zz", NUM)]
+    prog["structs"].append({"name": "Fclash", "attrs": attrs})
+    si = len(prog["structs"]) - 1
+    order = [o for o in (prog.get("order") or []) if o != ("struct", si)]
+    rng.shuffle(order)
+    at = order.index(("task", ti))
+    order[at + 1:at + 1] = [("struct", si)]
+    prog["order"] = order
+    lm = {}
+    text = gen_check.render(prog, gen_check.rand_layout(rng), lm)
+    return {"prog": prog, "text": text, "lm": lm,
+            "meta": {"family": "wf-attr-var-clash", "after": tname, "seed": seed_str}}
+
+
+def redeclare_case(seed_str):
+    """accepted although a call output re-declares a variable of the task (an earlier call output or a
+    task input) with ANOTHER type: the validator keeps the last type; nothing may be printed"""
+    rng = random.Random(seed_str)
+    prog = faults.with_support(gen_check.WGen(rng).gen_program())
+    prod = next(t for t in prog["tasks"] if t["name"] == "productionTask")
+    FQ, FIN, P = faults.FQ, faults.FIN, faults.P
+    q = ("service", "Sq", [], [("q", FQ)])
+    which = rng.choice(["other_struct", "array", "task_input", "call_output", "in_loop"])
+    if which == "other_struct":
+        seq = [q, ("service", "S1", [], [("x", FIN)]), ("service", "S2", [("var", "x")], [("x", FQ)]),
+               ("service", "S3", [P("x", "inner", "n")], [])]
+    elif which == "array":
+        first, second = rng.choice([(FIN, ("array", "Fin", None)), (("array", "Fin", None), FIN), (("array", "Fin", 2), ("array", "Fin", None))])
+        seq = [q, ("service", "S1", [], [("x", first)]), ("service", "S2", [], [("x", second)]), ("service", "S3", [("var", "x")], [])]
+    elif which == "task_input":
+        prog["tasks"].append({"name": "tredecl", "ins": [("p", FQ), ("k", ("plain", "number"))],
+                              "body": [("service", "S1", [("var", "p")], [("p", FIN), ("k", ("plain", "string"))]),
+                                       ("service", "S2", [P("p", "n"), ("var", "k")], [])], "outs": ["p"]})
+        prog["order"].append(("task", len(prog["tasks"]) - 1))
+        seq = [q, ("call", "tredecl", [("var", "q"), P("q", "count")], [("y", FIN)])]
+    elif which == "call_output":
+        seq = [q, ("service", "S1", [], [("x1", FQ)]), ("call",) + faults.GOOD_CALL, ("service", "S3", [P("x1", "n")], [])]
+    else:
+        seq = [q, ("service", "S1", [], [("x", FIN)]),
+               ("count", False, "w", ("int", 2), [("cond", ("bool", True), [("service", "S2", [], [("x", FQ)])], [])]),
+               ("service", "S3", [P("x", "count")], [])]
+    at = rng.randrange(len(prod["body"]) + 1)
+    prod["body"][at:at] = seq
+    lm = {}
+    text = gen_check.render(prog, gen_check.rand_layout(rng), lm)
+    return {"prog": prog, "text": text, "lm": lm, "meta": {"family": "redeclared-type", "which": which, "seed": seed_str}}
+
+
 def support_case(seed_str):
     """the fault-free host of the mutants: must be certified well-formed and accepted"""
     rng = random.Random(seed_str)
@@ -598,6 +659,8 @@ def slice_C11(pid, cfg, tier, seed, workdir, rep, stats, findings):
         cases.append(shared_names_case("%d/%s/shared/%d" % (seed, pid, i)))
     for i in range(max(24, n // 6)):
         cases.append(loop_scope_case("%d/%s/scopes/%d" % (seed, pid, i)))
+    for i in range(max(24, n // 6)):
+        cases.append(attr_var_clash_case("%d/%s/clash/%d" % (seed, pid, i), i % 3))
     stats["generated"] += len(cases)
     evaluate(cases, workdir)
     samples = []
@@ -931,6 +994,7 @@ def slice_C16(pid, cfg, tier, seed, workdir, rep, stats, findings):
     cases = [wf_case("%d/%s/wf/%d" % (seed, pid, i)) for i in range(n)]
     cases += [wf_outside_guard("%d/%s/out/%d" % (seed, pid, i)) for i in range(max(10, n // 5))]
     cases += [nested_array_case("%d/%s/nested/%d" % (seed, pid, i)) for i in range(max(21, n // 5))]
+    cases += [redeclare_case("%d/%s/redecl/%d" % (seed, pid, i)) for i in range(max(15, n // 8))]
     plan = fault_plan(pid, tier, seed, max(1, n // 60))
     cases += [fault_case(s, f, pk, d) for s, f, pk, d in plan]
     stats["generated"] += len(cases)
@@ -1210,7 +1274,7 @@ def near_valid_case(seed_str):
     """near-valid variants: self / mutual recursion, zero limits, undeclared limit variables"""
     rng = random.Random(seed_str)
     which = rng.choice(["F19a", "F19b", "F19c", "F19d", "F19e", "F19f", "F19g", "F19e", "F19f", "zero_limit", "F04e", "F05d",
-                        "F18f", "zero_parloop"])
+                        "F18f", "zero_parloop", "F18ad", "F18ae", "F18af", "F18ag"])
     if which in ("zero_limit", "zero_parloop"):
         prog = faults.with_support(gen_check.WGen(rng, gen_check.Config(runtime_safe=True)).gen_program())
         prod = next(t for t in prog["tasks"] if t["name"] == "productionTask")
